@@ -8,9 +8,8 @@ CONSTANTS
   Hours <- H
   Minutes <- Mi
   Seconds <- Se
-  Excel = TRUE
-  OnePassTranslation = TRUE
+  Excel = FALSE
+  OnePassTranslation = FALSE
 INVARIANT TypeOK
 INVARIANT DateMeansWhatItSays
-INVARIANT Emit
 CHECK_DEADLOCK FALSE
